@@ -23,7 +23,8 @@ type crashHist struct {
 	flush  []bool              // flush after statement i
 	noise  map[int]*proto.Stmt // a statement that has to FAIL, issued right after statement i
 	reopen []bool              // clean close + reopen after statement i
-	class  string              // never always mixed
+	class  string              // never always mixed timer
+	timer  bool                // the real 100 ms flush timer runs (no explicit flushes needed)
 }
 
 func intv(i int64) proto.Val { return proto.Int(i) }
@@ -152,6 +153,13 @@ func (ch *crashHist) schedule(r *core.Rand, class int) {
 		for i := range ch.flush {
 			ch.flush[i] = true
 		}
+	case 3:
+		// the real timer decides what is flushed when; the pauses let it tick
+		// between some statements and not between others
+		ch.class, ch.timer = "timer", true
+		for i := range ch.flush {
+			ch.reopen[i] = r.Chance(1, 25)
+		}
 	default:
 		ch.class = "mixed"
 		for i := range ch.flush {
@@ -163,7 +171,7 @@ func (ch *crashHist) schedule(r *core.Rand, class int) {
 
 func checkC02(c *core.Ctx) []core.Floor {
 	c.Level = "fault_enumeration"
-	c.Rule = "seeded DDL/DML histories (10-60 statements, 1-3 tables; one statement in eight is followed by a statement that is refused - over-long names, duplicate table, type / range / size / column-count errors, repeated columns - and must leave nothing behind, also nothing that only shows when later statements are rebuilt from the log) plus scenario templates; four histories in five have a second database next to theirs, created before or after it and sorting before or after it; EVERY statement boundary of every history is a crash point (image of the data directory with the timer off = state a kill -9 leaves); flush schedule per history: never / after every statement / random subset + clean reopen. Each image is recovered in a fresh process and SELECT * of every table + catalog is compared with the model after that statement; recovery is run a second time; then 3-8 further statements (with up to 2 more crash/recover cycles) are checked against the model incl. row-id rules. A sample is cross-validated with a real SIGKILL. Distinct = image (history, boundary, schedule); non-trivial = recovery actually replayed at least one log record."
+	c.Rule = "seeded DDL/DML histories (10-60 statements, 1-3 tables; one statement in eight is followed by a statement that is refused - over-long names, duplicate table, type / range / size / column-count errors, repeated columns - and must leave nothing behind, also nothing that only shows when later statements are rebuilt from the log) plus scenario templates; four histories in five have a second database next to theirs, created before or after it and sorting before or after it; EVERY statement boundary of every history is a crash point (image of the data directory with the timer off = state a kill -9 leaves); flush schedule per history: never / after every statement / random subset + clean reopen / the REAL 100 ms timer running (one history in eight: the image is taken right after the acknowledgement, never while a flush is writing, with pauses of more than a tick after some statements). Each image is recovered in a fresh process and SELECT * of every table + catalog is compared with the model after that statement; recovery is run a second time; then 3-8 further statements (with up to 2 more crash/recover cycles) are checked against the model incl. row-id rules. A sample is cross-validated with a real SIGKILL. Distinct = image (history, boundary, schedule); non-trivial = recovery actually replayed at least one log record."
 	c.Assume = []string{"process-death crash model: completed write(2) calls survive, as the property states", "image = copy of data/ taken between statements with the flush timer off; cross-validated against real SIGKILL on a sample"}
 	drv := mustDriver(c, false)
 	nRandom, kill := 300, 20
@@ -172,7 +180,7 @@ func checkC02(c *core.Ctx) []core.Floor {
 	}
 	var hists []*crashHist
 	tr := core.NewRand(core.SubSeed(c.Seed, "C02T", 0))
-	for rep := 0; rep < 3; rep++ {
+	for rep := 0; rep < 4; rep++ {
 		for _, t := range crashTemplates(tr) {
 			t.idx = 9000000 + len(hists)
 			t.schedule(tr, rep)
@@ -183,7 +191,9 @@ func checkC02(c *core.Ctx) []core.Floor {
 		h := buildCrashHist(c, i)
 		r := core.NewRand(core.SubSeed(c.Seed, "C02S", i))
 		cls := i % 4
-		if cls == 3 {
+		if i%8 == 7 {
+			cls = 3 // the real timer
+		} else if cls == 3 {
 			cls = 2
 		}
 		h.schedule(r, cls)
@@ -194,7 +204,7 @@ func checkC02(c *core.Ctx) []core.Floor {
 	})
 	return []core.Floor{
 		{Key: "images_verified", Min: 1000}, {Key: "recoveries_that_replayed", Min: 100}, {Key: "chains_of_3_cycles", Min: 1},
-		{Key: "real_kill_agree", Min: 5},
+		{Key: "real_kill_agree", Min: 5}, {Key: "images_taken_with_the_real_timer_running", Min: 200}, {Key: "images_crash_after_create_timer", Min: 10},
 		{Key: "images_crash_after_insert_never", Min: 1}, {Key: "images_crash_after_update_never", Min: 1}, {Key: "images_crash_after_delete_never", Min: 1}, {Key: "images_crash_after_create_never", Min: 1},
 		{Key: "images_crash_after_insert_always", Min: 1}, {Key: "images_crash_after_update_mixed", Min: 1}, {Key: "images_crash_after_delete_mixed", Min: 1},
 	}
@@ -211,7 +221,11 @@ func crashPhase1(c *core.Ctx, drv, dir string, ch *crashHist, withImages bool, k
 	}
 	var mt []meta
 	add := func(op proto.Op, m meta) { s.add(op); mt = append(mt, m) }
-	add(proto.Op{K: "cfg", N: 1}, meta{kind: "other"})
+	if ch.timer {
+		add(proto.Op{K: "cfg", N: 0, S: "timer-images"}, meta{kind: "other"})
+	} else {
+		add(proto.Op{K: "cfg", N: 1}, meta{kind: "other"})
+	}
 	add(proto.Op{K: "init"}, meta{kind: "other"})
 	// a second database next to the one the history runs in, created before
 	// or after it, named so that it sorts before or after it: start-up has to
@@ -242,7 +256,14 @@ func crashPhase1(c *core.Ctx, drv, dir string, ch *crashHist, withImages bool, k
 			add(proto.Op{K: "kill"}, meta{kind: "kill"})
 			break
 		}
-		if withImages {
+		if withImages && ch.timer {
+			// the image first: it is the state right after the acknowledgement
+			add(proto.Op{K: "image", Dir: imgDir(dir, i, "") + "/data"}, meta{kind: "image", i: i})
+			add(proto.Op{K: "dump"}, meta{kind: "dump", i: i})
+			if (ch.idx+i)%6 == 0 {
+				add(proto.Op{K: "sleep", N: 110}, meta{kind: "other"})
+			}
+		} else if withImages {
 			add(proto.Op{K: "dump"}, meta{kind: "dump", i: i})
 			add(proto.Op{K: "image", Dir: imgDir(dir, i, "") + "/data"}, meta{kind: "other"})
 		}
@@ -305,6 +326,12 @@ func runCrashHist(c *core.Ctx, drv string, ch *crashHist, killEvery int) {
 		if snaps[i] == nil {
 			continue
 		}
+		refused := map[string]string{}
+		for k, ns := range ch.noise {
+			if k <= i {
+				refused[fmt.Sprint(k)] = clip(model.RenderStmt(ns, model.Plain), 600)
+			}
+		}
 		j := &crashJob{
 			dir:   imgDir(dir, i, ""),
 			cands: []*model.DB{snaps[i]},
@@ -312,7 +339,11 @@ func runCrashHist(c *core.Ctx, drv string, ch *crashHist, killEvery int) {
 			cont:  r.Range(3, 8),
 			seed:  core.SubSeed(c.Seed, "C02C", ch.idx*1000+i),
 			replay: map[string]interface{}{"history": ch.idx, "template": ch.name, "flush_class": ch.class, "crash_after_statement": i,
-				"flush_after": ch.flush[:i+1], "reopen_after": ch.reopen[:i+1], "statements": stmtTexts[:i+1], "how": "run the statements (direct values) with the timer off, flushing where flagged, kill -9 after the last one, then InitStorage"},
+				"flush_after": ch.flush[:i+1], "reopen_after": ch.reopen[:i+1], "statements": stmtTexts[:i+1], "refused_statement_issued_after_statement": refused, "how": "run the statements (direct values) with the timer off, flushing where flagged, kill -9 after the last one, then InitStorage"},
+		}
+		if ch.timer {
+			j.replay.(map[string]interface{})["how"] = "run the statements (direct values) with the real 100 ms flush timer on, kill -9 right after the last one has returned (not while a flush is writing), then InitStorage"
+			c.Count("images_taken_with_the_real_timer_running", 1)
 		}
 		if r.Chance(1, 3) {
 			j.chain = r.Range(1, 2)
@@ -322,7 +353,7 @@ func runCrashHist(c *core.Ctx, drv string, ch *crashHist, killEvery int) {
 	// real-kill cross-validation on a sample of boundaries
 	var realJobs []*crashJob
 	for i := range ch.stmts {
-		if snaps[i] == nil || !r.Chance(1, killEvery) {
+		if snaps[i] == nil || ch.timer || !r.Chance(1, killEvery) {
 			continue
 		}
 		kd := c.CaseDir("c02k")
